@@ -165,7 +165,7 @@ def hxc_jobs(Job, cfg=CFG_NDEBUG, tier="quick"):
 TRACK_GROUP = ["crc_cycle", "CRC16Base_update", "CRC16Base_update_bit", "reverse_bit_order", "BitStream_raw_pos",
                "BitStream_rawbit", "BitStream_getbit", "BitStream_size", "mfm_read_byte",
                "track_constants", "BitStream_scan_for", "copy_mfm_bytes", "CCITT_CRC16_init", "CRC16Base_get", "check_crc_with_a1s",
-               "decode_sector_address_and_size"]
+               "decode_sector_address_and_size", "fm_read_byte", "copy_fm_bytes", "fm_get_crc", "fm_find_record_address_mark"]
 
 
 def track_J(Job, cfg, name, entry, enforce, tier="quick", **kw):
@@ -429,8 +429,20 @@ def mfm_decoder_jobs(Job, cfg=CFG_NDEBUG, tier="quick"):
         js.append(Job("D_decode_mfm_track_%s" % c3[0], "harness/dfs_track.c", "h_decode_mfm", enforce=["decode_mfm_track"],
                       replace=["BitStream_size", "BitStream_scan_for", "copy_mfm_bytes", "check_crc_with_a1s", "decode_sector_address_and_size"],
                       loops=True, defines=c3[1], extract=ext(TRACK_GROUP + ["decode_mfm_track"]), tier=tier, cover=True, solver="portfolio", timeout=1200))
+    for stride in (1, 2):
+        c4 = (cfg[0] + "_stride%d" % stride, list(cfg[1]) + ["VERIF_STRIDE=%d" % stride, "VERIF_TRACK_UNBOUNDED"])
+        js += [track_J(Job, c4, "fm_read_byte", "h_fm_read_byte", ["fm_read_byte"], tier, replace=["BitStream_getbit", "BitStream_size"], loops=True, cover=True, solver="portfolio", timeout=1200),
+               track_J(Job, (c4[0], c4[1] + ["CRC_MAXLEN=1035"]), "copy_fm_bytes", "h_copy_fm", ["copy_fm_bytes"], tier, replace=["fm_read_byte"], loops=True, cover=True, solver="portfolio", timeout=1200),
+               track_J(Job, c4, "fm_find_record_address_mark", "h_fm_find", ["fm_find_record_address_mark"], tier, replace=["BitStream_scan_for"], loops=True, cover=True)]
+    for stride in (1, 2):
+        c5 = (cfg[0] + "_stride%d" % stride, list(cfg[1]) + ["VERIF_STRIDE=%d" % stride, "VERIF_TRACK_UNBOUNDED", "VERIF_FM_STATE_MACHINE", "VERIF_CRC_ABSTRACT", "CRC_MAXLEN=1035"])
+        js.append(Job("D_decode_fm_track_%s" % c5[0], "harness/dfs_track.c", "h_decode_fm", enforce=["decode_fm_track"],
+                      replace=["BitStream_size", "BitStream_scan_for", "copy_fm_bytes", "fm_get_crc", "fm_find_record_address_mark", "decode_sector_address_and_size"],
+                      loops=True, defines=c5[1], extract=ext(TRACK_GROUP + ["decode_fm_track"]), tier=tier, cover=True, solver="portfolio", timeout=1200))
     for n, t in ((27, tier), (264, "thorough")):
         c2 = (cfg[0] + "_max%d" % n, list(cfg[1]) + ["CRC_MAXLEN=%d" % n])
+        js.append(track_J(Job, c2, "fm_get_crc", "h_fm_get_crc", ["fm_get_crc"], t, replace=["CRC16Base_update", "CRC16Base_get", "CCITT_CRC16_init"],
+                          cover=True, timeout=2400, cbmc=["--unwindset", "h_fill_crc_from3.0:%d" % (n + 2), "--unwinding-assertions"]))
         js.append(track_J(Job, c2, "check_crc_with_a1s", "h_check_crc", ["check_crc_with_a1s"], t, replace=["CRC16Base_update", "CRC16Base_get", "CCITT_CRC16_init"],
                           cover=True, timeout=2400, cbmc=["--unwindset", "h_fill_crc.0:%d" % (n + 2), "--unwinding-assertions"]))
     return js
